@@ -7,6 +7,8 @@ package keeper
 
 import (
 	"github.com/comdex-official/comdex/x/liquidationsV2/types"
+	lendkeeper "github.com/comdex-official/comdex/x/lend/keeper"
+	lendtypes "github.com/comdex-official/comdex/x/lend/types"
 	vaultkeeper "github.com/comdex-official/comdex/x/vault/keeper"
 	vaulttypes "github.com/comdex-official/comdex/x/vault/types"
 	"github.com/comdex-official/comdex/zzvp"
@@ -72,3 +74,75 @@ func VP_C15_V2VaultSweepNeverPanics() {
 	h, found := k.GetLiquidationOffsetHolder(ctx, types.VaultLiquidationsOffsetPrefix, 0)
 	zzvp.Assert(zzvp.And(found, h.CurrentOffset == end), "next-offset-is-the-end-of-the-window")
 }
+
+const vpLiqOneBorrow = "(github.com/comdex-official/comdex/x/liquidationsV2/keeper.Keeper).LiquidateIndividualBorrow"
+
+// C09 liveness / C15 (per-block borrow sweep, second generation): the sweep keeps its own position. For every number
+// of open borrows, stored offsets of BOTH sweeps and batch size: it never panics, visits exactly its window even when
+// items fail (a failing borrow must not stop the sweep, nor pin it to the same window for ever), stores the end of the
+// window as ITS next offset (so the following block continues there and every borrow is examined within
+// ceil(n/batch)+1 blocks), and leaves the vault sweep's offset alone. The per-borrow step is a contract stub (any
+// outcome incl. error).
+func vpBorrowSweep(c15 bool) (completed bool) {
+	zzvp.Stub(vpLiqOneBorrow)
+	var k Keeper
+	zzvp.Wire(&k)
+	var lk lendkeeper.Keeper
+	zzvp.Wire(&lk)
+	ctx := zzvp.ClosedCtx()
+	maxN := 2
+	if zzvp.Thorough() {
+		maxN = 4
+	}
+	n := zzvp.Choose(maxN + 1)
+	var ids []uint64
+	for i := 0; i < n; i++ {
+		ids = append(ids, uint64(i+1))
+	}
+	lk.SetAssetStatsByPoolIDAndAssetID(ctx, lendtypes.PoolAssetLBMapping{PoolID: 1, AssetID: 1, BorrowIds: ids})
+	batch := zzvp.AnyUint64()
+	zzvp.Assume(types.NewParams(batch).Validate() == nil)
+	k.SetParams(ctx, types.NewParams(batch))
+	vaultOffset, offset := zzvp.AnyUint64(), zzvp.AnyUint64()
+	k.SetLiquidationOffsetHolder(ctx, types.VaultLiquidationsOffsetPrefix, types.LiquidationOffsetHolder{AppId: 0, CurrentOffset: vaultOffset})
+	if zzvp.AnyBool() {
+		k.SetLiquidationOffsetHolder(ctx, types.VaultLiquidationsOffsetPrefix, types.LiquidationOffsetHolder{AppId: 1, CurrentOffset: offset})
+	} else {
+		offset = 0
+	}
+	var err error
+	panicked := zzvp.Try(func() { err = k.LiquidateBorrows(ctx, 1) })
+	zzvp.Reach("borrow-sweep-returned")
+	start := offset
+	if start >= uint64(n) {
+		start = 0
+	}
+	end := uint64(n)
+	if batch < uint64(n)-start {
+		end = start + batch
+	}
+	visited := uint64(zzvp.SpyCount(vpLiqOneBorrow))
+	h, found := k.GetLiquidationOffsetHolder(ctx, types.VaultLiquidationsOffsetPrefix, 1)
+	if c15 {
+		zzvp.Assert(!panicked, "borrow-sweep-never-panics")
+		zzvp.Assert(zzvp.Or(panicked, err == nil), "a-failing-borrow-does-not-fail-the-sweep")
+		zzvp.Assert(visited == end-start, "every-borrow-of-the-window-is-visited-even-after-a-failing-one")
+		zzvp.Assert(zzvp.And(found, h.CurrentOffset == end), "the-sweep-moves-on-even-after-a-failing-borrow")
+		return false
+	}
+	hv, foundV := k.GetLiquidationOffsetHolder(ctx, types.VaultLiquidationsOffsetPrefix, 0)
+	zzvp.Assert(zzvp.And(foundV, hv.CurrentOffset == vaultOffset), "vault-sweep-offset-untouched-by-the-borrow-sweep")
+	if panicked || err != nil {
+		return false
+	}
+	zzvp.Assert(visited == end-start, "every-borrow-of-the-window-is-visited")
+	zzvp.Assert(zzvp.And(found, h.CurrentOffset == end), "borrow-sweep-next-offset-is-the-end-of-its-window")
+	return true
+}
+
+func VP_C09_V2BorrowSweepKeepsItsOwnOffset() {
+	if vpBorrowSweep(false) {
+		zzvp.Reach("borrow-sweep-completed")
+	}
+}
+func VP_C15_V2BorrowSweepIsolatesFailures() { vpBorrowSweep(true) }
